@@ -296,11 +296,18 @@ class C12(E1Prop):
 
 
 # ---------------------------------------------------------------------------------------------- engine E2 (zoo)
-from . import zoo  # noqa: E402
+import os  # noqa: E402
+from . import zoo, stackgen  # noqa: E402
 
 ENGINES.append({"name": "E2", "path": "vlib/stackgen.py + vlib/zoo.py + harness/zoo/", "serves_properties": [],
                 "kind_free_text": "seeded stack-grammar generator, one generated TU per stack, generic public-API adapter, reference interpreter "
                                   "(no covfie include) evaluating the generator's own descriptor, rapidcheck driver"})
+
+
+def dict_harness(h, case):
+    """e1.replay looks the harness up by the name stored in the case."""
+    h.name = case.get("harness", h.name)
+    return h
 
 
 class ZooProp(E1Prop):
@@ -318,12 +325,40 @@ class ZooProp(E1Prop):
         return [zoo.ZooH("zoo_" + self.mode, self.stacks(tier, seed), self.mode, shards=self.shards)]
 
     def check(self, tier, seed):
-        return e1.check(self.pid, tier, seed, self.harnesses(tier, seed), self.level, self.rule, self.assumptions, min_eval=self.min_eval,
-                        extra_cov={"stacks": len(self.stacks(tier, seed))})
+        failures = []
+        rc = e1.check(self.pid, tier, seed, self.harnesses(tier, seed), self.level, self.rule, self.assumptions, min_eval=self.min_eval,
+                      extra_cov={"stacks": len(self.stacks(tier, seed))}, failures=failures)
+        if rc == 1 and failures and not os.environ.get("VERIF_NO_STACK_SHRINK"):
+            self.shrink_stack(tier, seed, failures)
+        return rc
+
+    def shrink_stack(self, tier, seed, failures):
+        """Stack-level shrinking of the first zoo failure (the violation itself has already been reported)."""
+        from . import zooshrink
+        by_id = {stackgen.stack_id(l): l for l in self.stacks(tier, seed)}
+        for h, case in failures:
+            inst = case.get("inst", "")
+            if not inst.startswith("zoo/") or inst[4:] not in by_id or not isinstance(h, zoo.ZooH):
+                continue
+            try:
+                res = zooshrink.shrink(self.pid, self.mode, by_id[inst[4:]], "quick", seed, env={k: v for k, v in h.env.items() if k != "VERIF_ZOO_MODE"})
+            except Exception as e:  # noqa  (shrinking is a convenience; it must never change the verdict)
+                core.log(f"[{self.pid}] stack-level shrinking gave up: {e}")
+                return
+            if res:
+                layers, c = res
+                p = core.save_replay(self.pid, c)
+                core.log(f"[{self.pid}] stack-level shrinking: also fails on the smaller stack {stackgen.cpp_type(layers)}")
+                e1.violation(self.pid, p)
+            return
 
     def replay(self, path):
         import json as _j
-        seed = _j.load(open(path)).get("stack_seed", 1)
+        c = _j.load(open(path))
+        if "stack_layers" in c:
+            h = zoo.ZooH(f"zoo_shrink_{self.mode}", [c["stack_layers"]], self.mode, shards=1)
+            return e1.replay(self.pid, [dict_harness(h, c)], path)
+        seed = c.get("stack_seed", 1)
         return e1.replay(self.pid, self.harnesses("quick", seed), path)
 
     def setup(self):
